@@ -21,7 +21,7 @@ import (
 func init() {
 	setTier("C18", 60000, 300, 2000000, 1800)
 	levelOf["C18"] = "exploration"
-	ruleOf["C18"] = "one run = one seeded scenario (initial properties file, 1-5 external atomic edits at gaps from 1 ms to 10 s incl. several within one second, 1-3 reader tasks calling every typed getter, an observer, optional SetValues write-backs with prefix/suffix/exclude options) under one seeded schedule with ThreadSanitizer watching; for every write-back the file content visible at EVERY simulated-disk operation boundary (and between write chunks) is compared with {complete old, complete new} (crash-point enumeration) (plus: file removed / moved away and back / replaced with an older modification time, an external edit inside a write-back, a failing first write-back, environment-selected path, numeric edge values); non-trivial = a context switch inside a getter/SetValues or a disk boundary enumerated; distinct = distinct fingerprint of (switch sequence, getter outcomes, journal)"
+	ruleOf["C18"] = "one run = one seeded scenario (initial properties file, 1-5 external atomic edits at gaps from 1 ms to 10 s incl. several within one second, 1-3 reader tasks calling every typed getter, an observer, optional SetValues write-backs with prefix/suffix/exclude options) under one seeded schedule with ThreadSanitizer watching; for every write-back the file content visible at EVERY simulated-disk operation boundary (and between write chunks) is compared with {complete old, complete new} (crash-point enumeration) (plus: file removed / moved away and back / replaced with an older modification time, same-size edits, in-memory overrides by the application (ApplyDefault/ApplyConfig) before an edit, a reader woken while the reload has the file open, an external edit inside a write-back, a failing first write-back, environment-selected path, numeric edge values); non-trivial = a context switch inside a getter/SetValues or a disk boundary enumerated; distinct = distinct fingerprint of (switch sequence, getter outcomes, journal)"
 	assumptionsOf["C18"] = []string{
 		"external edits replace the file atomically (rename) and every replace gets a strictly larger modification time with nanosecond resolution; edits do not overlap a write-back",
 		"crash model = process stop: the surviving state is the visible file content at an operation boundary; power-loss semantics (unsynced data lost) are not applied because the statement does not claim them",
